@@ -10,6 +10,12 @@ correspondence leg   a float32 IS a rational: every float input/parameter is sen
                      under `near_boundary_skipped` instead of compared, unless every float operation on
                      them is exact by construction (power-of-two scales, inputs on a scale/4 grid): the
                      exhaustive boundary sweep for bits {2,3,4,8} is of that kind and is compared in full.
+stateful leg         every quantizer is also driven as a STATEFUL object over short histories (train()/eval(),
+                     forwards on same-shaped but differently scaled tensors, in-place parameter edits, dequantize
+                     toggles, state_dict save/load into a fresh instance): after every forward the predicates are
+                     demanded w.r.t. the tensor just passed and the scale reported for THAT call, and the output is
+                     compared with the model, which is a pure function of the current input and parameters
+                     (finding keys `C13:<Quantizer>:stale-state:<clause>`; replay = the call sequence).
 oracle leg           the property's own predicates on the outputs of the real quantizers (exact rational
                      arithmetic on the float32 values; float slack only where the real-valued clause is
                      subject to float32 rounding, and then a few ulp).
@@ -338,12 +344,255 @@ def real_dummy(xs):
     return d(x).tolist(), float(d.scale)
 
 
+# ----------------------------------------------------------------------------- stateful histories
+QNAME = {'w': 'MinMaxWeight', 'a': 'PACTAct', 'b': 'QuantizerBias', 'd': 'DummyQuantizer'}
+
+
+def _scaled_channels(rng, cout, n, e):
+    """cout channels of n float32 values of magnitude ~2^e (with zero / constant / negative channels)"""
+    chans = []
+    for c in range(cout):
+        r = rng.random()
+        if r < 0.1:
+            ch = [0.0] * n
+        elif r < 0.2:
+            ch = [to32(rng.choice([-1, 1]) * 0.37 * 2.0 ** e)] * n
+        else:
+            ch = [to32(rng.gauss(0, 1) * 2.0 ** e) for _ in range(n)]
+            ch = [math.copysign(min(max(abs(v), 2.0 ** -30), 2.0 ** 13), v) if v != 0 else 2.0 ** -30 for v in ch]
+            if r < 0.35:
+                ch = [-abs(v) for v in ch]
+        chans.append(ch)
+    return chans
+
+
+def gen_histories(rng, quick, mult=1):
+    """call sequences on ONE quantizer instance (JSON-serialisable)"""
+    out = []
+    n = (60 if quick else 900) * mult
+    for t in range(n):
+        cls = ['w', 'w', 'w', 'a', 'b', 'd'][t % 6]
+        ops = []
+        if rng.random() < 0.7:
+            ops.append(['mode', rng.choice(['train', 'eval', 'eval'])])
+        n_fwd = rng.randint(3, 6)
+        if cls == 'w':
+            bits = rng.choice(W_BITS)
+            cout, k = rng.choice([1, 3, 4]), rng.choice([2, 5, 9, 12])
+            e = rng.uniform(-12, 6)
+            have_param = False
+            for i in range(n_fwd):
+                e = min(max(e + rng.choice([-1, 1]) * rng.uniform(1, 8), -28), 12)      # same shape, other scale
+                r = rng.random()
+                if r < 0.35 or (not have_param and r < 0.7):
+                    ops.append(['set', _scaled_channels(rng, cout, k, e)])       # in-place copy into the held tensor
+                    have_param = True
+                elif r < 0.55 and have_param:
+                    ops.append(['mul', 2.0 ** rng.choice([-9, -4, -1, 1, 3, 7])])   # in-place edit (optimizer step)
+                else:
+                    ops.append(['fwd', _scaled_channels(rng, cout, k, e)])       # another tensor of the same shape
+                r = rng.random()
+                if r < 0.25:
+                    ops.append(['mode', rng.choice(['train', 'eval'])])
+                elif r < 0.35:
+                    ops.append(['reload'])
+            out.append({'q': 'h', 'cls': 'w', 'bits': bits, 'shape4': k % 3 == 0 and rng.random() < 0.5, 'ops': ops})
+        elif cls == 'a':
+            bits = rng.choice(A_BITS)
+            clip = to32(rng.choice(CLIPS))
+            for i in range(n_fwd):
+                r = rng.random()
+                if r < 0.4:
+                    ops.append(['clip', to32(math.exp(rng.uniform(math.log(0.05), math.log(1000.0))))])
+                elif r < 0.6:
+                    ops.append(['clipmul', rng.choice([0.5, 2.0, 1.25])])
+                ops.append(['fwd', None])         # inputs are drawn w.r.t. the clip value current at that point
+                r = rng.random()
+                if r < 0.25:
+                    ops.append(['mode', rng.choice(['train', 'eval'])])
+                elif r < 0.4:
+                    ops.append(['reload'])
+            out.append({'q': 'h', 'cls': 'a', 'bits': bits, 'clip': clip, 'ops': ops, 'xseed': rng.randrange(2 ** 30)})
+        elif cls == 'b':
+            cout = rng.choice([1, 3, 6])
+            for i in range(n_fwd):
+                kind = rng.choice(['live', 'live', 'zero', 'tiny'])
+                sa = to32(rng.choice(CLIPS) / (2 ** rng.choice(A_BITS) - 1))
+                if kind == 'zero':
+                    sw = [0.0 if rng.random() < 0.6 else to32(2.0 ** rng.uniform(-12, 0)) for _ in range(cout)]
+                elif kind == 'tiny':
+                    sw = [to32(2.0 ** rng.uniform(-40, -22)) for _ in range(cout)]
+                else:
+                    sw = [to32(2.0 ** rng.uniform(-18, 1)) for _ in range(cout)]
+                ops.append(['fwd', {'sa': sa, 'sw': sw,
+                                    'b': [rand_mag(rng) if rng.random() < 0.9 else 0.0 for _ in range(cout)]}])
+                r = rng.random()
+                if r < 0.25:
+                    ops.append(['mode', rng.choice(['train', 'eval'])])
+                elif r < 0.35:
+                    ops.append(['reload'])
+            out.append({'q': 'h', 'cls': 'b', 'cout': cout, 'ops': ops})
+        else:
+            for i in range(n_fwd):
+                ops.append(['fwd', [rand_mag(rng) if rng.random() < 0.9 else 0.0 for _ in range(5)]])
+                if rng.random() < 0.3:
+                    ops.append(['mode', rng.choice(['train', 'eval'])])
+                elif rng.random() < 0.2:
+                    ops.append(['reload'])
+            out.append({'q': 'h', 'cls': 'd', 'ops': ops})
+    return out
+
+
+def _act_inputs(seed, p, clip):
+    import random
+    r = random.Random(seed)
+    xs = [0.0, clip, nxt(clip, True), nxt(clip, False), -clip, 2 * clip, -1e-30]
+    for _ in range(24):
+        u = r.random()
+        if u < 0.7:
+            xs.append(r.uniform(-0.2, 1.3) * clip)
+        else:
+            xs.append(r.randint(0, 2 ** p) * (clip + 1e-3) / (2 ** p - 1) * (1 + r.uniform(-1e-5, 1e-5)))
+    return [to32(x) for x in xs]
+
+
+def real_history(case):
+    """drive ONE quantizer instance through the history; one record per forward: the synthetic single-call case
+    (current input, current parameters) and what the live object returned / reported for that call"""
+    import torch
+    from plinio.methods.mps.quant.quantizers import MinMaxWeight, PACTAct, QuantizerBias, DummyQuantizer
+    cls = case['cls']
+    cout0 = 1
+    if cls == 'w':
+        cout0 = len(next(o[1] for o in case['ops'] if o[0] in ('set', 'fwd')))
+
+    def fresh():
+        if cls == 'w':
+            return MinMaxWeight(case['bits'], cout0, dequantize=True)
+        if cls == 'a':
+            return PACTAct(case['bits'], init_clip_val=case['clip'], dequantize=True)
+        if cls == 'b':
+            return QuantizerBias(32, case['cout'], dequantize=True)
+        return DummyQuantizer(8)
+    qz = fresh()
+    training = True
+    param = None
+    steps = []
+    for i, op in enumerate(case['ops']):
+        if op[0] == 'mode':
+            training = op[1] == 'train'
+            qz.train(training)
+        elif op[0] == 'reload':
+            sd = {k: v.clone() for k, v in qz.state_dict().items()}
+            qz = fresh()
+            qz.load_state_dict(sd)
+            qz.train(training)
+        elif op[0] == 'clip':
+            with torch.no_grad():
+                qz.clip_val.data.fill_(op[1])
+        elif op[0] == 'clipmul':
+            with torch.no_grad():
+                qz.clip_val.data.mul_(op[1])
+        elif cls == 'w':
+            if op[0] == 'set':
+                t = torch.tensor(op[1], dtype=torch.float32)
+                if param is None:
+                    param = torch.nn.Parameter(t.clone())
+                else:
+                    with torch.no_grad():
+                        param.copy_(t)
+                w = param
+            elif op[0] == 'mul':
+                with torch.no_grad():
+                    param.mul_(op[1])
+                w = param
+            else:
+                w = torch.tensor(op[1], dtype=torch.float32)
+            chans = w.detach().tolist()
+            wv = w.view(w.shape[0], w.shape[1] // 3, 3, 1) if case.get('shape4') and w.shape[1] % 3 == 0 else w
+            c = w.shape[0]
+            qz.dequantize = False
+            n = qz(wv).detach()
+            s = qz.scale.detach().clone()
+            qz.dequantize = True
+            fq = qz(wv).detach()
+            sd_ = qz.scale.detach().clone()
+            steps.append({'i': i, 'case': {'q': 'w', 'bits': case['bits'], 'kind': 'history', 'w': chans, 'shape4': False},
+                          'real': {'n': n.reshape(c, -1).tolist(), 'fq': fq.reshape(c, -1).tolist(),
+                                   's': s.reshape(-1).tolist(), 'sd': sd_.reshape(-1).tolist()}})
+        elif cls == 'a':
+            p = case['bits']
+            c32 = qz.clip_val.data[0].clone()
+            xs = _act_inputs(case['xseed'] + i, p, float(c32))
+            x = torch.tensor(xs, dtype=torch.float32)
+            qz.dequantize = False
+            n = qz(x.clone()).detach()
+            scale = float(qz.scale)
+            qz.dequantize = True
+            fq = qz(x.clone()).detach()
+            den = c32 + 1e-3
+            steps.append({'i': i, 'case': {'q': 'a', 'bits': p, 'clip': float(c32), 'kind': 'history', 'x': xs},
+                          'real': {'n': n.tolist(), 'fq': fq.tolist(), 'scale': scale, 'clip32': float(c32),
+                                   'den': float(den), 'sf': float((2 ** p - 1) / den)}})
+        elif cls == 'b':
+            d = op[1]
+            sa = torch.tensor(d['sa'], dtype=torch.float32)
+            sw = torch.tensor(d['sw'], dtype=torch.float32)
+            b = torch.tensor(d['b'], dtype=torch.float32)
+            qz.dequantize = False
+            n = qz(b.clone(), sa, sw).detach()
+            qz.dequantize = True
+            fq = qz(b.clone(), sa, sw).detach()
+            steps.append({'i': i, 'case': {'q': 'b', 'kind': 'history', 'pa': 0, 'clip': 0.0, 'sa': d['sa'], 'sw': d['sw'],
+                                           'b': d['b']},
+                          'real': {'n': n.tolist(), 'fq': fq.tolist(), 's': qz.scale.detach().tolist(), 'sa': float(sa)}})
+        else:
+            x = torch.tensor(op[1], dtype=torch.float32)
+            steps.append({'i': i, 'case': {'q': 'd', 'x': op[1]},
+                          'real': {'out': qz(x).tolist(), 'scale': float(qz.scale)}})
+    return {'steps': steps}
+
+
+class HistChk:
+    """routes the violations of one history step to the stale-state key class, with the call sequence as the case"""
+
+    def __init__(self, chk, hist, step_no, op_index):
+        self.chk, self.hist, self.step_no, self.op_index = chk, hist, step_no, op_index
+
+    def violation(self, key, what, case):
+        if self.step_no > 0:          # not the first forward of the instance: the state left by earlier calls matters
+            a, b, c = key.split(':', 2)
+            key = '%s:%s:stale-state:%s' % (a, b, c)
+        h = dict(self.hist)
+        h['ops'] = self.hist['ops'][:self.op_index + 1]
+        pre = [o[0] if o[0] != 'mode' else o[1] for o in h['ops']]
+        self.chk.violation(key, 'after the call sequence %s on ONE instance: %s' % (pre, what), h)
+
+
+def oracle_history(chk, hist, real):
+    """the property's predicates after EVERY forward, w.r.t. the tensor just passed and the scale reported then"""
+    if 'error' in real:
+        chk.violation('C13:%s:history-raises' % QNAME[hist['cls']], 'a call sequence raises %s' % real['error'], hist)
+        return
+    for k, st in enumerate(real['steps']):
+        hc = HistChk(chk, hist, k, st['i'])
+        c, r = st['case'], st['real']
+        if c['q'] == 'w':
+            oracle_weight(hc, c, r)
+        elif c['q'] == 'a':
+            oracle_act(hc, c, r)
+        elif c['q'] == 'b':
+            oracle_bias(hc, c, r)
+        elif r['out'] != [to32(x) for x in c['x']] or r['scale'] != 1.0:
+            hc.violation('C13:DummyQuantizer:identity', 'DummyQuantizer is not the identity with scale 1', c)
+
+
 def evaluate(case):
     """real outputs of one case (top-level: used through pmap)"""
     import torch
     torch.set_num_threads(1)
     try:
-        return {'w': real_weight, 'a': real_act, 'b': real_bias, 'r': real_round}[case['q']](case)
+        return {'w': real_weight, 'a': real_act, 'b': real_bias, 'r': real_round, 'h': real_history}[case['q']](case)
     except Exception as e:                      # a quantizer that raises is reported by the oracle
         return {'error': '%s: %s' % (type(e).__name__, str(e)[:200])}
 
@@ -660,7 +909,9 @@ def run(chk):
                 'and +-1 ulp around every rounding boundary); activations: bits 2..8 x clip {0.05..1000 + random} '
                 'x inputs below 0 / in range / on level boundaries / at, next to and above clip + exhaustive sweep '
                 'for bits {2,3,4,8} with scale_factor an exact power of two; bias: live / zero / tiny / '
-                'power-of-two scales, monotone groups; torch.round on ties. distinct = distinct '
+                'power-of-two scales, monotone groups; torch.round on ties; stateful histories on ONE instance of every '
+                'quantizer (3-6 forwards on same-shaped, differently scaled tensors interleaved with train()/eval(), in-place '
+                'parameter edits, dequantize toggles, state_dict reload into a fresh instance). distinct = distinct '
                 '(quantizer, bits, kind, inputs); non-trivial = at least one input strictly inside the range '
                 'and one on or beyond its edge (all but single-element/zero channels)')
     chk.trusted.append('float32 rounding of the quantizers is modelled, not verified: levels are compared on exact '
@@ -668,12 +919,25 @@ def run(chk):
                        'torch.round/floor/clamp/isclose kernels')
     chk.prove()
     cases = gen_cases(chk.rng, chk.quick)
-    allc = cases['w'] + cases['a'] + cases['b'] + cases['r']
+    hists = gen_histories(chk.rng, chk.quick)
+    allc = cases['w'] + cases['a'] + cases['b'] + cases['r'] + hists
     reals = common.pmap(evaluate, allc)
     # ---- correspondence
     lines, owners = [], []
     for case, real in zip(allc, reals):
         if 'error' in real:
+            continue
+        if case['q'] == 'h':
+            # model(current input, current parameters) = real output after any history
+            for st in real['steps']:
+                c, r = st['case'], st['real']
+                if c['q'] == 'w':
+                    for ci, ch in enumerate(c['w']):
+                        lines.append('w bits=%d w=%s' % (c['bits'], rl(F(x) for x in ch)))
+                        owners.append((c, r, ci))
+                elif c['q'] in ('a', 'b'):
+                    lines.append(line_of(c, r))
+                    owners.append((c, r, None))
             continue
         if case['q'] == 'w':
             for ci, ch in enumerate(case['w']):
@@ -712,7 +976,7 @@ def run(chk):
     # ---- escalate the failing-input search when a leg broke
     if chk.proof_broken or chk.corr_disagreements:
         more = gen_cases(chk.rng, chk.quick, mult=5)
-        allm = more['w'] + more['a'] + more['b']
+        allm = more['w'] + more['a'] + more['b'] + gen_histories(chk.rng, chk.quick, mult=5)
         run_oracle(chk, allm, common.pmap(evaluate, allm))
 
 
@@ -735,6 +999,13 @@ def run_oracle(chk, cases, reals):
             oracle_bias(chk, case, real)
             chk.count(('b', case['kind'], tuple(case['sw']), tuple(case['b'])), nontrivial=True,
                       sample={k: case[k] for k in ('q', 'kind', 'sw', 'b')}, bucket='bias:' + case['kind'])
+        elif q == 'h':
+            oracle_history(chk, case, real)
+            nf = len(real.get('steps', []))
+            chk.count(('h', case['cls'], repr(case['ops'])), nontrivial=nf >= 2,
+                      sample={'q': 'h', 'cls': case['cls'], 'ops': [o[0] if o[0] != 'mode' else o[1] for o in case['ops']]},
+                      bucket='history:%s' % case['cls'])
+            chk.hist['history-forwards'] = chk.hist.get('history-forwards', 0) + nf
         elif q == 'r':
             if 'error' not in real:
                 for x, v in zip(case['x'], real['n']):
@@ -762,6 +1033,13 @@ def replay(data):
         out, sc = real_dummy(case['x'])
         print('dummy:', out[:4], sc)
         return 0 if out == [to32(x) for x in case['x']] and sc == 1.0 else 1
+    if q == 'h':
+        real = evaluate(case)
+        print('call sequence on one instance:', [o[0] if o[0] != 'mode' else o[1] for o in case['ops']])
+        oracle_history(rp, case, real)
+        for key, what in rp.violations:
+            print('still fails:', key, what[:400])
+        return 1 if rp.violations else 0
     real = evaluate(case)
     print('case:', {k: (v if not isinstance(v, list) or len(v) < 12 else v[:12] + ['...']) for k, v in case.items()})
     print('real:', {k: (v if not isinstance(v, list) or len(v) < 12 else v[:12]) for k, v in real.items()})
